@@ -742,6 +742,7 @@ pub mod glue {
     }
 
     pub struct Ctx {
+        pub policy: DropPolicy,
         pub pool: RawOpaquePool,
         pub counts: [usize; 8],
         pub bases: [usize; 8],
@@ -757,6 +758,7 @@ pub mod glue {
         sm::reset();
         set_capacity(GCAP);
         let layout = SlabLayout::new(Layout::new::<D>());
+        let policy = if nd::bool() { DropPolicy::MustNotDropContents } else { DropPolicy::MayDropContents };
         let mut counts = [0_usize; 8];
         let mut bases = [0_usize; 8];
         let mut slabs: Vec<Slab> = Vec::new();
@@ -772,7 +774,7 @@ pub mod glue {
             let c = nd::usize();
             nd::assume(c <= GCAP);
             counts[i] = c;
-            let mut s = sm::new(layout, DropPolicy::MayDropContents);
+            let mut s = sm::new(layout, policy);
             s.folo_verif_set_count(c);
             slabs.push(s);
             if c == GCAP {
@@ -784,8 +786,8 @@ pub mod glue {
         let blocks = if k == 0 { Vec::new() } else { vec![bits] };
         let map = VacancyMap::folo_verif_from_parts(blocks, k);
         let tracker = VacancyTracker::folo_verif_from_parts(map, lowest_vacant(&counts, k));
-        let pool = RawOpaquePool::folo_verif_from_parts(layout, slabs, DropPolicy::MayDropContents, total, tracker);
-        Ctx { pool, counts, bases, k, live: Vec::new() }
+        let pool = RawOpaquePool::folo_verif_from_parts(layout, slabs, policy, total, tracker);
+        Ctx { policy, pool, counts, bases, k, live: Vec::new() }
     }
 
     /// Native: the same summary, reached through the real API (fill k slabs, then remove).
@@ -793,7 +795,8 @@ pub mod glue {
     pub fn arbitrary_pool(k: usize) -> Ctx {
         reset_drops();
         set_capacity(GCAP);
-        let mut pool = RawOpaquePool::with_layout_of::<D>();
+        let policy = if nd::bool() { DropPolicy::MustNotDropContents } else { DropPolicy::MayDropContents };
+        let mut pool = RawOpaquePool::builder().layout_of::<D>().drop_policy(policy).build();
         let mut counts = [0_usize; 8];
         let mut bases = [0_usize; 8];
         let mut all = Vec::new();
@@ -815,7 +818,7 @@ pub mod glue {
                 }
             }
         }
-        Ctx { pool, counts, bases, k, live }
+        Ctx { policy, pool, counts, bases, k, live }
     }
 
     pub fn check(ctx: &Ctx, counts: &[usize; 8], k: usize) {
@@ -829,6 +832,7 @@ pub mod glue {
         while i < k {
             let s = pool.folo_verif_slab(i);
             assert!(s.len() == counts[i], "glue: per-slab count");
+            assert!(s.folo_verif_drop_policy() == ctx.policy, "glue: every slab (also one created by reserve / insert) carries the pool's drop policy");
             if cfg!(kani) || i < ctx.k {
                 assert!(s.folo_verif_base() == ctx.bases[i], "glue: slabs never move or reorder");
             }
